@@ -124,16 +124,56 @@ def pattern_of_class(ctx, cq):
                     raise AnalysisError("cannot fold pattern of %s: %s"
                                         % (cq, e))
         if isinstance(n, ast.Call) and isinstance(n.func, ast.Attribute) \
-                and n.func.attr == "__init__" and len(n.args) == 2:
+                and n.func.attr == "__init__" and len(n.args) in (2, 3):
             tgt = m.resolve(init.module, n.func.value)
             if tgt and base in m.mro(tgt):
                 try:
-                    return fold_local(m, init, n.args[1])
+                    pat = fold_local(m, init, n.args[1])
                 except Unfoldable as e:
                     raise AnalysisError("cannot fold pattern of %s: %s"
                                         % (cq, e))
+                explicit = n.args[2] if len(n.args) == 3 else next(
+                    (k.value for k in n.keywords if k.arg == "flags"), None)
+                return _base_flags(ctx, init, explicit) + pat
     raise AnalysisError("no base-constructor call with a pattern in %s"
                         % init.qualname)
+
+
+def _base_flags(ctx, init, explicit):
+    """Inline-flag prefix for the flags the base constructor compiles the
+    pattern with: the argument a subclass passes, else the default of the
+    base constructor's flags parameter (none today)."""
+    m = ctx.model
+    base = DT + ".RegularExpressionConversion"
+    binit = m.lookup_method(base, "__init__")
+    if binit is None:
+        raise AnalysisError("anchor vanished: %s.__init__" % base)
+    comp = [x for x in ast.walk(binit.node) if isinstance(x, ast.Call)
+            and m.resolve(binit.module, x.func) == "re.compile"]
+    if len(comp) != 1:
+        raise AnalysisError("%s.__init__ does not compile exactly one "
+                            "pattern" % base)
+    c = comp[0]
+    fl = c.args[1] if len(c.args) > 1 else next(
+        (k.value for k in c.keywords if k.arg == "flags"), None)
+    from rules.c03 import inline_flags
+    if fl is None:
+        if explicit is not None:
+            raise AnalysisError("a flags argument is passed to %s.__init__, "
+                                "which does not use one" % base)
+        return ""
+    if isinstance(fl, ast.Name) and fl.id in binit.params:
+        a = binit.node.args
+        names = [x.arg for x in a.args]
+        defaults = dict(zip(names[len(names) - len(a.defaults):],
+                            a.defaults))
+        if explicit is not None:
+            return inline_flags(m, init.module, explicit)
+        if fl.id in defaults:
+            return inline_flags(m, binit.module, defaults[fl.id])
+        raise AnalysisError("flags parameter of %s.__init__ has no default"
+                            % base)
+    return inline_flags(m, binit.module, fl)
 
 
 def base_semantic(ctx):
